@@ -98,9 +98,14 @@ _ECHO_ARGS = {
     "q": _a("Req"),
     "j": _a("JSON"),
     "dt": _a("Date"),
+    "lo": _a("[In]"),
 }
+# a directive that is legal at EVERY executable location (so that repeating it breaks one rule only)
+TAG_DIRECTIVE = "directive @tag(n: Int) on QUERY | MUTATION | SUBSCRIPTION | FIELD | FRAGMENT_DEFINITION | FRAGMENT_SPREAD | INLINE_FRAGMENT | VARIABLE_DEFINITION"
+
 SCHEMA_C = {
     "name": "C",
+    "directives": [TAG_DIRECTIVE],
     "query": "Q",
     "mutation": "M",
     "subscription": "Sub",
@@ -160,11 +165,15 @@ SCHEMA_D = {
                 "pet": _f("Pet"),
                 "pets": _f("[Pet]"),
                 "cat": _f("Cat"),
+                "animals": _f("[Animal]"),
             },
         },
-        "Pet": {"kind": "interface", "fields": dict(_PET_FIELDS)},
-        "Dog": {"kind": "object", "interfaces": ["Pet"], "fields": dict(_PET_FIELDS)},
-        "Cat": {"kind": "object", "interfaces": ["Pet"], "fields": dict(_PET_FIELDS)},
+        # `say` is declared with DIFFERENT argument defaults / an extra optional argument per type:
+        # one field node selected on Pet serves several field definitions
+        "Pet": {"kind": "interface", "fields": dict(_PET_FIELDS, say=_f("String", {"w": _a("Int", "1")}, echo=True))},
+        "Dog": {"kind": "object", "interfaces": ["Pet"], "fields": dict(_PET_FIELDS, say=_f("String", {"w": _a("Int", "2"), "extra": _a("String", '"dog"')}, echo=True))},
+        "Cat": {"kind": "object", "interfaces": ["Pet"], "fields": dict(_PET_FIELDS, say=_f("String", {"w": _a("Int", "3"), "lives": _a("Int")}, echo=True))},
+        "Animal": {"kind": "union", "members": ["Dog", "Cat"]},
         "Person": {"kind": "object", "interfaces": [], "fields": {"name": _f("String"), "age": _f("Int"), "best": _f("Dog")}},
     },
 }
@@ -271,7 +280,7 @@ def root_of(sm, kind):
 
 # -- SDL emitter (own code) -------------------------------------------------------------------
 def to_sdl(sm):
-    out = []
+    out = list(sm.get("directives", []))
     roots = [(k, sm[k]) for k in ("query", "mutation", "subscription") if sm.get(k)]
     if any(name != kind.capitalize() for kind, name in roots):
         out.append("schema { %s }" % " ".join("%s: %s" % kv for kv in roots))
